@@ -11,6 +11,7 @@ import (
 	"github.com/ipfs/go-unixfsnode/data/builder"
 	"github.com/ipld/go-ipld-prime"
 	"github.com/ipld/go-ipld-prime/datamodel"
+	"github.com/ipld/go-ipld-prime/linking"
 	"github.com/ipld/go-ipld-prime/traversal"
 	"github.com/ipld/go-ipld-prime/traversal/selector"
 	selbuilder "github.com/ipld/go-ipld-prime/traversal/selector/builder"
@@ -114,6 +115,13 @@ func setOf(cs []cid.Cid) map[string]bool {
 // checkEntity is the C06 monitor for one entity and all access forms.
 func checkEntity(c *mon.Case, e *entity, faults bool) {
 	want := setOf(e.Blocks)
+	// another LinkSystem of the same process, set up the same way and then reconfigured by its owner,
+	// must have no influence on the link systems used below
+	decoy := store.New().LinkSystem(true)
+	decoy.KnownReifiers["unixfs-preload"] = unixfsnode.Reify
+	decoy.KnownReifiers["unixfs"] = func(linking.LinkContext, datamodel.Node, *linking.LinkSystem) (datamodel.Node, error) {
+		return nil, fmt.Errorf("decoy reifier")
+	}
 	for fi, form := range entityForms {
 		st := e.St.Clone()
 		st.Logging = true
